@@ -1,0 +1,28 @@
+//go:build verif
+
+// Round 5, area I: LogLevel.Set writes its receiver only (used by the config-file validation of apps/nsqd, C06);
+// Logf (the log line in front of every fatal exit of the programs under apps/) writes nothing that is modelled. Comment-only file.
+
+package lg
+
+//@ func (l *LogLevel) Set(s string) error
+//@   props C06
+//@   requires l != nil
+//@   modifies *l
+//@   keeps r5IResolves, r5IResolvedOpts, r5IResolvedFlags
+//@   nochan
+
+//@ func (l *LogLevel) String() string
+//@   props C06 C05
+//@   requires l != nil
+//@   modifies
+//@   keeps r5IResolves, r5IResolvedOpts, r5IResolvedFlags
+//@   nochan
+
+// (the Logger behind it is a *log.Logger or the NilLogger: no modelled state - `benign (lg.Logger).Output` in r5I.spec)
+//@ func Logf(logger Logger, cfgLevel LogLevel, msgLevel LogLevel, f string, args ...interface{})
+//@   props C06 C05
+//@   requires logger != nil
+//@   modifies
+//@   keeps r5IResolves, r5IResolvedOpts, r5IResolvedFlags
+//@   nochan
